@@ -301,11 +301,18 @@ func (c *columnKey) Apply(chunk commit.Chunk, r *commit.Reader) {
 		case commit.Put:
 			value := string(r.Bytes())
 
-			fill[offset>>6] |= 1 << (offset & 0x3f)
-			data[offset] = value
+			// If the row is being re-keyed, its previous key must not resolve anymore
 			c.lock.Lock()
+			if prev := data[offset]; fill[offset>>6]&(1<<(offset&0x3f)) != 0 && prev != value {
+				if at, ok := c.seek[prev]; ok && at == uint32(r.Offset) {
+					delete(c.seek, prev)
+				}
+			}
 			c.seek[value] = uint32(r.Offset)
 			c.lock.Unlock()
+
+			fill[offset>>6] |= 1 << (offset & 0x3f)
+			data[offset] = value
 
 		case commit.Delete:
 			fill.Remove(uint32(offset))
